@@ -56,14 +56,14 @@ reg("C15", "The real refine_droplets / locate_droplets(refine=True) / EmulsionTi
     COMMON_NOTE + " Real OS scheduling/prefetch of ProcessPoolExecutor is covered only by the uncontrolled conformance pass.", "exhaustive enumeration of completion schedules under a controlled executor vs. serial reference")
 # additions of later rounds (appended to the level text)
 ADD = {
-    "C14": " Also: both trackers of an interleaved pair are judged, also on a 64x66 image; a length-scale tracker and a droplet tracker chained on one state object in either order (state-unmodified clause).",
+    "C14": " Also: both trackers of an interleaved pair are judged, also on a 64x66 image; a length-scale tracker and a droplet tracker chained on one state object in either order (state-unmodified clause). Live-state feeding (one state object overwritten in place) and a restarting clock.",
     "C01": " Also: the same placements measured in length units 1e-9 ... 1e12; large diagonal pairs whose bounding boxes overlap.",
-    "C02": " Also: every image of a 3x4 cylindrical / anisotropic 3x3 grid analysed in sequence on one shared grid object; every union of two wrapped rectangles on 8x8; grids in other length units; periodic cylinders with one-decimal bounds and components centred exactly on the periodic boundary. Boxes 2^27 spacings away from the coordinate origin.",
-    "C03": " Also: axisymmetric perturbed droplets on 3-d Cartesian grids and every ordered pair of amplitude counts rendered in one fresh process. Grids with more than 4096 cells (72x72 ... 18x18x19) incl. droplets over the last cells; clipped sums on cylinders far from z = 0 in every order.",
+    "C02": " Also: every image of a 3x4 cylindrical / anisotropic 3x3 grid analysed in sequence on one shared grid object; every union of two wrapped rectangles on 8x8; grids in other length units; periodic cylinders with one-decimal bounds and components centred exactly on the periodic boundary. Boxes 2^27 spacings away from the coordinate origin. Alternating-origin histories.",
+    "C03": " Also: axisymmetric perturbed droplets on 3-d Cartesian grids and every ordered pair of amplitude counts rendered in one fresh process. Grids with more than 4096 cells (72x72 ... 18x18x19) incl. droplets over the last cells; clipped sums on cylinders far from z = 0 in every order. The same droplet on boxes differing only in periodicity, every ordered pair of masks.",
     "C04": " Also: candidates that cover no cell (also in a periodic image of the box), perturbed candidates without modes, one-sided automatic intensity levels. The plural entry point with every container form of the candidates (list, tuple, emulsion, generator, iterator, map, object array) x 1/2/3/auto processes.",
     "C05": " Also: numeric thresholds off the mid level and ordered pairs/triples of images analysed with worker processes (controlled pool) in one process; harness-rendered droplets centred exactly on the periodic z boundary of cylinders. Droplets reaching across the periodic z boundary of cylinders; option-prelude histories (an earlier call with unusual optimiser options, then default calls); centres 0.005-0.1 cells either side of a periodic boundary; float32 / Fortran-ordered / read-only images.",
     "C06": " Also: time courses continued by append() without a time stamp. Cut-off exactly 0; crowds of 17 / 70 static droplets with one actor; frames that went through get_linked_data, pickle, deepcopy or a rebuild from data rows before tracking.",
-    "C07": " Also: time courses continued by append() without a time stamp; tracks obtained directly from stored fields (from_storage) on all histories of <= 3 frames must equal those of the analysed time course. Cut-off exactly 0; crowds of 17 / 70 static droplets with one actor that grows, shrinks, moves or vanishes; life cycles of the frames as in C06.",
+    "C07": " Also: time courses continued by append() without a time stamp; tracks obtained directly from stored fields (from_storage) on all histories of <= 3 frames must equal those of the analysed time course. Cut-off exactly 0; crowds of 17 / 70 static droplets with one actor that grows, shrinks, moves or vanishes; life cycles of the frames as in C06. Pairs facing each other across the x / y boundary of a 2-d box for every grid configuration.",
     "C09": " Also: tracking with a polar / spherical / cylindrical grid supplied, refine_droplet called directly on the droplet catalogue, a storage analysed again after the resulting time course was extended. One droplet tracked through frames that represent it by different droplet classes.",
     "C10": " Also: lattices translated by 2^27 (positions far from the coordinate origin). Emulsions of more than 8 / 64 droplets: every core of <= 4 droplets over a disparate line lattice embedded in 9 / 70 fillers.",
     "C11": " Also: all histories of <= 3 merges inside a 4-member emulsion (members in place, rows of the linked array, replacement, reversal) with conservation after every step. Balanced merge trees over 9-130 droplets with every intermediate result kept alive and judged at the end.",
@@ -71,8 +71,8 @@ ADD = {
     "C18": " Also: annular grids with an own radial model of the result; every block on one grid object. The size filter on refined results: smooth droplets x six thresholds x 13 minimal radii around the droplet radius on four grid families.",
     "C12": " Also: perturbed classes over the whole radius lattice (sphere limit, homogeneity in the radius, vanished droplets).",
     "C15": " Also: a candidate exactly on the coordinate origin, the same candidate object listed twice, translated-box and other-periodicity storage scenarios in the call histories, and one 132-task refinement for which only the first 3 schedules are run (declared cap, see evidence caps_hit). Candidate container forms (generator, iterator, tuple, emulsion, map); a 17-candidate refinement with 2, 3, 4 and auto workers (first 3 schedules each, declared cap).",
-    "C16": " Also: seven forms of the wave-number request (starting at 0, single value, descending, tuple, array). A catalogue of three asymmetric fields on six shapes with 1000-4500 cells under the mode-resolved clauses.",
-    "C17": " Also: neighbouring tiny spacings (1e-10, 1e-9, 2e-9), a knife-edge screen computed from an own FFT spectrum, droplet counting on partly periodic boxes. Every translation of every 1-d binary image of 7, 8, 10 cells with the own component count; droplet counting on cylindrical grids (stretch, scale, translations along periodic z).",
+    "C16": " Also: seven forms of the wave-number request (starting at 0, single value, descending, tuple, array). A catalogue of three asymmetric fields on six shapes with 1000-4500 cells under the mode-resolved clauses. Grid sequences in units 1e-9, 1e-12, 1e6.",
+    "C17": " Also: neighbouring tiny spacings (1e-10, 1e-9, 2e-9), a knife-edge screen computed from an own FFT spectrum, droplet counting on partly periodic boxes. Every translation of every 1-d binary image of 7, 8, 10 cells with the own component count; droplet counting on cylindrical grids (stretch, scale, translations along periodic z). Droplet counting with forwarded options (refinement, worker processes).",
     "C19": " Also: request preludes (a perturbed-shape request on a grid of each family made first in the same process). Image data as float32, bool, uint8, int64, Fortran-ordered and read-only arrays.",
     "C20": " Also: bulk additions with consistency requested, constructor with caller-owned lists, checked additions to derived collections, item assignment, reversal, conversion of the time course to tracks. Summary queries against the members' own volumes and boxes for all five droplet classes x eight construction paths x five radius families (near-equal, huge, with vanished members).",
 }
